@@ -21,7 +21,11 @@ ASSUMPTIONS = ["str.format features beyond {name}, {{ and }} (conversions, forma
                "known finding D8 (known_findings.json): a traditional-format layout object is altered in place"]
 
 VALUES = ["foo", "", "{OTHER}", "*", "a b", "[x]", "é", "{{", "}", "sub/bar", "exit0"]
-NAMES_OK = ["A", "OTHER", "x_1", "a-b", "Z9"]
+NAMES_OK = ["A", "OTHER", "x_1", "a-b", "Z9", "strings", "self"]
+# (valid parameter names that are also ordinary Python identifiers: a helper called with **parameters must not have a
+#  parameter of its own by that name)
+IDENTIFIER_LIKE = ["strings", "self", "format", "args", "kwargs", "layout", "parameters", "name", "value", "key", "cls",
+                   "string", "format_spec", "rule", "rules", "item", "step", "s", "text", "template", "mapping"]
 # (names that differ from a valid one only by white space at either end: `$` in a regular expression also matches before
 #  a final newline, `match` is not `fullmatch`, and a name read from a file may carry its line end)
 NAMES_BAD = ["", "a b", "é", "a.b", "a!", "A\n", "OTHER\n", "\nA", "A\r\n", "A ", " A", "A\t", "A\nB", "\n", "x_1\n\n", "\uff21", "A\u0661"]
@@ -49,7 +53,7 @@ def shard_format(seed, idx, n):
     res = core.Result()
     rng = core.rng_for(seed, "c16", "fmt", idx)
     cases = []
-    pieces = ["{A}", "{OTHER}", "{x_1}", "{a-b}", "{{", "}}", "{", "}", "lit", " ", "*", "{}", "{0}", "{MISSING}", "é", "{A}{A}"]
+    pieces = ["{A}", "{OTHER}", "{x_1}", "{a-b}", "{{", "}}", "{", "}", "lit", " ", "*", "{}", "{0}", "{MISSING}", "é", "{A}{A}", "{strings}", "{self}"]
     for _ in range(n):
         t = "".join(rng.choice(pieces) for _ in range(rng.randrange(0, 6)))
         params = {k: rng.choice(VALUES) for k in rng.sample(NAMES_OK, rng.randrange(0, 5))}
@@ -120,7 +124,7 @@ def gen_case(rng, root):
     if mode == "missing" and used:
         del params[rng.choice(sorted(used))]
     elif mode == "extra":
-        params["UNUSED"] = "x"
+        params[rng.choice(["UNUSED"] + IDENTIFIER_LIKE)] = "x"
     elif mode == "bad_name":
         params[rng.choice(NAMES_BAD)] = "v"
     elif mode == "nonstr":
